@@ -27,17 +27,16 @@ func (a *DropPlanner) cutLabels(e *shared.LogEntry) error {
 	if e.Labels == nil {
 		return nil
 	}
-	recountFP := false
 	for k, v := range e.Labels {
 		for i, l := range a.Labels {
 			if k == l && (a.Values[i] == "" || v == a.Values[i]) {
 				delete(e.Labels, k)
-				recountFP = true
 			}
 		}
 	}
-	if recountFP {
-		e.Fingerprint = fingerprint(e.Labels)
-	}
+	// every entry gets the fingerprint of its label set, changed or not: an entry that lost a
+	// label must meet the entries of the stream that never had it (their stored fingerprint is
+	// computed by another function)
+	e.Fingerprint = fingerprint(e.Labels)
 	return nil
 }
